@@ -21,6 +21,15 @@ func attachMonitors(w *World) {
 	if w.want["C11"] {
 		monC11(w)
 	}
+	if w.want["C08"] {
+		monC08(w)
+	}
+	if w.want["C09"] {
+		monC09(w)
+	}
+	if w.want["C06"] {
+		monC06(w)
+	}
 	if w.want["C05"] {
 		monC05(w)
 	}
